@@ -126,7 +126,7 @@ private theorem validateReshareForRemainers_ok {cur : DBState} {t : Terms} {u}
       containsAll (t.remaining ++ t.leaving) g.nodes = true ∧ ¬ t.remaining.length < cur.threshold := by
   unfold validateReshareForRemainers at h
   exc at h
-  obtain ⟨h1, h2, h3⟩ := h
+  obtain ⟨h1, h2, _hsch, _hper, h3⟩ := h
   split at h3
   · exc at h3
   · rename_i g hg
@@ -662,6 +662,21 @@ theorem c08_member_rejects (cur : DBState) (t : Terms) (now : Int) (g : GroupLit
   · rw [b] at h3; cases h3
   · rw [b] at h4; cases h4
   · exact h5 b
+
+/-- … and one that changes the scheme or the beacon period (they identify the chain like the genesis parameters do) -/
+theorem c08_member_rejects_scheme_period (cur : DBState) (t : Terms) (now : Int)
+    (hs : cur.state = .complete) (he : t.epoch ≠ 1)
+    (hbad : t.schemeID ≠ cur.schemeID ∨ t.periodSec ≠ cur.periodSec) :
+    (validateProposal cur t now).toOption = none := by
+  apply toOption_none_of; intro u hu
+  have h := (validateProposal_ok hu).2.2 he (by rw [hs]; decide) (by rw [hs]; decide)
+  unfold validateReshareForRemainers at h
+  exc at h
+  obtain ⟨_, _, hsch, hper, _⟩ := h
+  simp at hsch hper
+  rcases hbad with b | b
+  · exact b hsch
+  · exact b hper
 
 theorem c08_first_epoch_rejects (cur : DBState) (t : Terms) (now : Int) (he : t.epoch = 1)
     (hbad : t.genesisSeed ≠ [] ∨ t.remaining ≠ [] ∨ t.leaving ≠ [] ∨ contains t.joining t.leader = false) :
